@@ -387,4 +387,31 @@ def check_case(case):
             if not es <= TOL:
                 bad("metamorphic:swap", f"swapping axes {AXN[a]}{AXN[b]} (print axis {AXN[axis]}->{AXN[ax_s]}): "
                                         f"outputs differ by {es:.3e}")
+
+    # ---- (e) the same module evaluated again (a filter is called once per design iteration): the second and third
+    # response() on one instance - first with the same field, then with another one - must give what a freshly built
+    # filter gives for that field (both forms of the direction). Nothing the first call prepared may be used up.
+    if vec_ok and value_ok:
+        rng2 = np.random.default_rng(case["payload_seed"] + 1)
+        x2 = _to_flat(_field(case["field"], n, axis, sign, rng2))
+        for form, mod, y1, dirn in (("vector", mv, yv, vec), ("string", ms, ys if ms is not None else None, sdir)):
+            if mod is None or (form == "string" and V):
+                continue
+            try:
+                mod.response()
+                y_again = np.asarray(mod.sig_out[0].state).copy()
+                mod.sig_in[0].state = x2.copy()
+                mod.response()
+                y_new = np.asarray(mod.sig_out[0].state).copy()
+                _, y_fresh = _run(pym, domain, x2, dirn, case)
+            except Exception as e:
+                bad(f"raises:re-evaluation:{type(e).__name__}", f"direction={dirn!r}: " + _exc(e))
+                continue
+            labels.append("re-evaluated")
+            if y_again.shape != y1.shape or not float(np.max(np.abs(y_again - y1))) <= TOL:
+                bad("re-evaluation:same_input", f"second response() of one {form}-direction filter ({dirn!r}) on the "
+                    f"same field differs from the first by {np.max(np.abs(y_again - y1)):.3e}")
+            elif y_new.shape != y_fresh.shape or not float(np.max(np.abs(y_new - y_fresh))) <= TOL:
+                bad("re-evaluation:new_input", f"third response() of one {form}-direction filter ({dirn!r}) on a new "
+                    f"field differs from a fresh filter by {np.max(np.abs(y_new - y_fresh)):.3e}")
     return labels, V
